@@ -123,9 +123,34 @@ def lean_sources():
     return sorted(res)
 
 
-def forbidden_hits():
+def import_closure(modules):
+    """Source files of `modules`, of the driver (Main.lean) and of everything of this project they import,
+    transitively.  A file nothing here imports cannot contribute to these theorems (and `#print axioms` would
+    show `sorryAx` anyway); scanning only the closure keeps one property's check independent of work in
+    progress on another property's proof file."""
+    def imports_of(path):
+        return [mm.group(1) for mm in (re.match(r"\s*import\s+(\S+)", l) for l in open(path).read().split("\n")) if mm]
+    seen = {}
+    main = os.path.join(LEAN, "Main.lean")
+    todo = list(modules) + (imports_of(main) if os.path.exists(main) else [])
+    while todo:
+        m = todo.pop()
+        if m in seen or not m.startswith("IncrVerif"):
+            continue
+        path = os.path.join(LEAN, *m.split(".")) + ".lean"
+        if not os.path.exists(path):
+            continue
+        seen[m] = path
+        todo.extend(imports_of(path))
+    res = set(seen.values())
+    if os.path.exists(main):
+        res.add(main)
+    return sorted(res)
+
+
+def forbidden_hits(modules=None):
     hits = []
-    for path in lean_sources():
+    for path in (import_closure(modules) if modules else lean_sources()):
         body = strip_comments(open(path).read())
         for ln, line in enumerate(body.split("\n"), 1):
             if FORBIDDEN.search(line):
@@ -175,7 +200,7 @@ def proof_obligations(prop, modules):
         errs = re.findall(r"error: (\S+?\.lean:\d+:\d+: .*)", log)
         res["failures"].append("lake build failed: " + ("; ".join(errs[:3]) if errs else log[-300:]))
         return res
-    hits = forbidden_hits()
+    hits = forbidden_hits(modules)
     if hits:
         res["failures"].append("forbidden construct in Lean sources: " + "; ".join(hits[:5]))
     # axioms audit
